@@ -8,8 +8,9 @@ use crate::value::Value;
 macro_rules! harness {
     ($name:ident, $unw:expr, $body:expr) => {
         #[kani::proof]
-        #[kani::unwind($unw)]
+        #[kani::unwind(5)]
         #[kani::stub(std::ptr::drop_in_place, noop_drop)]
+        #[kani::stub(core::str::from_utf8, from_utf8_model)]
         fn $name() {
             $body
         }
@@ -38,7 +39,7 @@ fn decode_all_lengths<const N: usize>(buf: &[u8; N]) {
 //@ desc: parse_jsonb on every byte string of length 0..=8 (all bytes symbolic: header kind, counts, entry type and length fields, payloads): returns Ok or Err, never panics (no failed unwrap/assert/index, no arithmetic overflow)
 //@ fns: parse_jsonb, Decoder::decode, Decoder::decode_jsonb, Decoder::decode_scalar, Decoder::decode_array, Decoder::decode_object, Decoder::decode_jentries, Number::decode
 //@ bounds: input length <= 8 bytes
-//@ stubs: drop_in_place -> no-op
+//@ stubs: drop_in_place -> no-op | core::str::from_utf8 -> specification model (DFA over Unicode table 3-7)
 //@ outside: inputs longer than the bound | allocation failure
 harness!(c10_bytes_8, 6, {
     let buf: [u8; 8] = kani::any();
@@ -52,7 +53,7 @@ harness!(c10_bytes_8, 6, {
 //@ desc: parse_jsonb on every byte string of length 0..=12: Ok or Err, never a panic
 //@ fns: parse_jsonb, Decoder::decode
 //@ bounds: input length <= 12 bytes
-//@ stubs: drop_in_place -> no-op
+//@ stubs: drop_in_place -> no-op | core::str::from_utf8 -> specification model (DFA over Unicode table 3-7)
 harness!(c10_bytes_12, 6, {
     let buf: [u8; 12] = kani::any();
     decode_all_lengths(&buf);
@@ -89,11 +90,41 @@ fn string_payload(w: usize) {
 //@ desc: scalar string document with every possible payload of 1, 2, 3 and 4 bytes (fully symbolic, not assumed well-formed): the decoder returns a string exactly when the payload is well-formed UTF-8 (independent DFA over Unicode table 3-7) and InvalidUtf8 otherwise
 //@ fns: parse_jsonb, Decoder::decode_scalar, core::str::from_utf8
 //@ bounds: payload <= 4 bytes
-//@ stubs: drop_in_place -> no-op
+//@ stubs: drop_in_place -> no-op | core::str::from_utf8 -> specification model (DFA over Unicode table 3-7)
 harness!(c10_string_utf8_1, 20, string_payload(1));
 harness!(c10_string_utf8_2, 20, string_payload(2));
 harness!(c10_string_utf8_3, 20, string_payload(3));
 harness!(c10_string_utf8_4, 20, string_payload(4));
+
+/// object whose key bytes are arbitrary (not assumed well-formed, not assumed sorted): no panic, and a
+/// value comes back only if every key is well-formed UTF-8 on its own
+fn object_keys(l0: usize, l1: usize) {
+    let mut d = B::build(&obj(&[l0, l1], &[leaf(K_NULL, 0), leaf(K_TRUE, 0)]));
+    let raw: [u8; 4] = kani::any();
+    let root = d.node(d.root);
+    let k0 = root.koff[0];
+    let mut i = 0;
+    while i < l0 + l1 {
+        d.b[k0 + i] = raw[i];
+        i += 1;
+    }
+    let r = parse_jsonb(&d.b[..d.n]);
+    let ok = utf8_ok_at(&d.b, k0, l0) && utf8_ok_at(&d.b, k0 + l0, l1);
+    assert!(r.is_ok() == ok, "an object decodes exactly when each key is well-formed UTF-8");
+    kani::cover!(ok, "well-formed keys");
+    kani::cover!(!ok && utf8_ok_at(&d.b, k0, l0 + l1), "keys ill-formed although the key area as a whole is well-formed");
+    core::mem::forget(r);
+}
+//@ props: C10
+//@ timeout: 1800
+//@ harness: c10_object_keys_11, c10_object_keys_21, c10_object_keys_12
+//@ desc: two-member object whose key bytes (lengths 1+1, 2+1, 1+2) are arbitrary, not assumed well-formed or sorted: the decoder never panics and returns a value exactly when each key on its own is well-formed UTF-8 (a multi-byte character split across two keys is rejected)
+//@ fns: parse_jsonb, Decoder::decode_object, Decoder::decode_scalar, core::str::from_utf8
+//@ bounds: keys <= 2 bytes
+//@ stubs: drop_in_place -> no-op | core::str::from_utf8 -> specification model (DFA over Unicode table 3-7)
+harness!(c10_object_keys_11, 30, object_keys(1, 1));
+harness!(c10_object_keys_21, 30, object_keys(2, 1));
+harness!(c10_object_keys_12, 30, object_keys(1, 2));
 
 /// every proper prefix of a valid encoding is rejected, by parse_jsonb and by from_slice (whose
 /// text fallback must not accept the bytes either)
@@ -117,7 +148,7 @@ fn prefixes(d: &B) {
 //@ desc: every proper prefix (truncation at every offset) of the encodings of [n2,s2,null], {k:n9,kk:[s1]}, "s2" (scalar string: the text fallback sees header bytes then the payload), n9, [[n2],{k:s1}] with symbolic payloads is rejected with an error by parse_jsonb and by from_slice (binary decode fails and the text fallback rejects the bytes too)
 //@ fns: parse_jsonb, from_slice, Decoder::decode, parse_value, Parser::parse, Parser::skip_unused
 //@ bounds: documents <= 40 bytes
-//@ stubs: drop_in_place -> no-op
+//@ stubs: drop_in_place -> no-op | core::str::from_utf8 -> specification model (DFA over Unicode table 3-7)
 harness!(c10_prefix_a, 66, split1(2, |k| if k == 0 { prefixes(&B::build(&arr(&[leaf(K_NUM, 2), leaf(K_STR, 2), leaf(K_NULL, 0)]))) } else { prefixes(&B::build(&leaf(K_STR, 2))) }));
 harness!(c10_prefix_b, 66, split1(2, |k| if k == 0 { prefixes(&B::build(&obj(&[1, 2], &[leaf(K_NUM, 9), arr(&[leaf(K_STR, 1)])]))) } else { prefixes(&B::build(&leaf(K_NUM, 9))) }));
 harness!(c10_prefix_c, 66, prefixes(&B::build(&arr(&[arr(&[leaf(K_NUM, 2)]), obj(&[1], &[leaf(K_STR, 1)])]))));
@@ -146,7 +177,7 @@ fn fault(d: &B) {
 //@ desc: byte substitution (hence every bit flip) at every offset of the encodings of [n2,s1] and {k:[null]}: header kind/count bytes, entry type and length bytes and payload bytes each replaced by an arbitrary value: parse_jsonb returns Ok or Err, never panics
 //@ fns: parse_jsonb, Decoder::decode
 //@ bounds: one faulty byte per run; documents of 15 and 21 bytes
-//@ stubs: drop_in_place -> no-op
+//@ stubs: drop_in_place -> no-op | core::str::from_utf8 -> specification model (DFA over Unicode table 3-7)
 harness!(c10_fault_a, 8, fault(&B::build(&arr(&[leaf(K_NUM, 2), leaf(K_STR, 1)]))));
 harness!(c10_fault_b, 8, fault(&B::build(&obj(&[1], &[arr(&[leaf(K_NULL, 0)])]))));
 
@@ -157,21 +188,40 @@ pub fn marker_parse_value(_buf: &[u8]) -> Result<Value<'_>, Error> {
 }
 //@ props: C10, C11
 //@ timeout: 900
-//@ desc: from_slice on every byte string of length 1..=12 whose first byte is not 0x20, 0x40 or 0x80: the result is exactly the text parser's result (the text parser is replaced by a marker that returns Error::InvalidToken, which no other path can produce), i.e. such input is never decoded as binary
+//@ desc: text is never misread as binary: (1) is_jsonb is true exactly for a first byte 0x20, 0x40 or 0x80 (every buffer of <= 4 bytes); (2) from_slice on inputs of 12 bytes starting with each JSON-text first byte (digits 0 and 7, minus, quote, [, {, t, f, n, tab, LF, CR) followed by 11 arbitrary bytes returns exactly the text parser's result (the text parser is replaced by a marker returning Error::InvalidToken, which no other path produces): such input never reaches the binary decoder
 //@ fns: from_slice, is_jsonb
-//@ bounds: length <= 12
+//@ bounds: 12-byte inputs; first byte from the listed JSON-text starters
 //@ stubs: parse_value -> marker returning Err(InvalidToken) | drop_in_place -> no-op
 #[kani::proof]
-#[kani::unwind(8)]
+#[kani::unwind(5)]
 #[kani::stub(crate::parser::parse_value, marker_parse_value)]
 #[kani::stub(std::ptr::drop_in_place, noop_drop)]
+#[kani::stub(core::str::from_utf8, from_utf8_model)]
 fn c10_text_not_binary() {
-    let buf: [u8; 12] = kani::any();
-    let len: usize = kani::any();
-    kani::assume(len >= 1 && len <= 12);
-    kani::assume(buf[0] != 0x20 && buf[0] != 0x40 && buf[0] != 0x80);
-    let r = from_slice(&buf[..len]);
-    assert!(r == Err(Error::InvalidToken), "text input goes to the text parser, never to the binary decoder");
+    let b4: [u8; 4] = kani::any();
+    let l4: usize = kani::any();
+    kani::assume(l4 <= 4);
+    let j = crate::functions::is_jsonb(&b4[..l4]);
+    assert!(j == (l4 >= 1 && (b4[0] == 0x20 || b4[0] == 0x40 || b4[0] == 0x80)), "is_jsonb looks at the first byte only");
+    const STARTS: [u8; 12] = [b'0', b'7', b'-', b'"', b'[', b'{', b't', b'f', b'n', b'\t', b'\n', b'\r'];
+    let rest: [u8; 11] = kani::any();
+    let k: usize = kani::any();
+    kani::assume(k < 12);
+    let mut i = 0;
+    while i < 12 {
+        if k == i {
+            let mut buf = [0u8; 12];
+            buf[0] = STARTS[i];
+            let mut z = 0;
+            while z < 11 {
+                buf[1 + z] = rest[z];
+                z += 1;
+            }
+            let r = from_slice(&buf);
+            assert!(r == Err(Error::InvalidToken), "text input goes to the text parser, never to the binary decoder");
+        }
+        i += 1;
+    }
 }
 
 //@ props: C10
@@ -180,9 +230,13 @@ fn c10_text_not_binary() {
 //@ desc: vacuity twin: every 8-byte input claimed to be rejected — must be refuted
 //@ fns: parse_jsonb
 #[kani::proof]
-#[kani::unwind(6)]
+#[kani::unwind(5)]
 #[kani::stub(std::ptr::drop_in_place, noop_drop)]
+#[kani::stub(core::str::from_utf8, from_utf8_model)]
 fn c10_twin_must_fail() {
     let buf: [u8; 8] = kani::any();
-    assert!(parse_jsonb(&buf).is_err(), "TWIN: deliberately false");
+    let r = parse_jsonb(&buf);
+    let bad = r.is_err();
+    core::mem::forget(r);
+    assert!(bad, "TWIN: deliberately false");
 }
